@@ -140,7 +140,7 @@ def main(argv):
                    'Go harness harness/cmd/c20 (engine hook, reflection on private counters and port buffers, trace-file printer)',
                    'int64 counters do not overflow; instruction counts are >= 0 (they are lengths in the real reader)']
     rep.assumptions = ['theorems: any tree-shaped platform, any trace, any order in which the engine handles queued events; '
-                       'finiteness of runs is observed (event budget in the harness), not proved',
+                       'the sampled runs only decide whether the real components and the real engine still behave like the model',
                        'trace files: tokens without white space, instruction lines do not start with a keyword of the format']
     thorough = vlib.tier() == 'thorough'
     n_sim = 400 if thorough else 64
